@@ -31,6 +31,10 @@ pub struct Case {
     pub ops: Vec<Op>,
     /// read sizes of the chunking reader (cycled), each >= 1
     pub reads: Vec<u16>,
+    /// zero bytes fed through the hook before the history starts (0 = none): moves the history to
+    /// high block-size levels, where a burst of eliminations follows the first triggers
+    #[serde(default)]
+    pub zero_prefix: u64,
 }
 
 struct HintIter<'a> {
@@ -112,8 +116,11 @@ fn feed(g: &mut Generator, chunk: &[u8], form: u8, forms: &mut u32) -> Result<()
     }
 }
 
-fn one_shot_text(data: &[u8]) -> Result<(String, String), String> {
+fn one_shot_text(zero_prefix: u64, data: &[u8]) -> Result<(String, String), String> {
     let mut g = Generator::new();
+    if zero_prefix > 0 {
+        g.verif_feed_zeroes(zero_prefix);
+    }
     must("update", || {
         g.update(data);
     })?;
@@ -125,12 +132,27 @@ fn one_shot_text(data: &[u8]) -> Result<(String, String), String> {
 
 pub fn eval(case: &Case, st: &mut Stats) -> Result<(), String> {
     let data = case.prog.render();
-    let (r, s) = reference(&data);
-    let (elim, bounds) = oracle::gen::interesting_positions(&data, r.log.saturating_sub(1));
+    let z = case.zero_prefix;
+    let (r, s) = if z == 0 {
+        reference(&data)
+    } else {
+        let segs = [oracle::gen::Seg::Zeros(z), oracle::gen::Seg::Bytes(&data)];
+        let (b, sb) = oracle::gen::model_b_segs(&segs, None).expect("model B");
+        let (a, _) = oracle::gen::model_a_segs(&segs).expect("model A");
+        assert!(a == b, "ORACLE SELF-CHECK: model A != model B");
+        (b, sb)
+    };
+    let (elim, bounds) = oracle::gen::interesting_positions_after_zeros(z, &data, r.log.saturating_sub(1));
     let mut anchors: Vec<usize> = elim.clone();
     anchors.extend(bounds.iter().copied());
     anchors.sort_unstable();
     let mut g = Generator::new();
+    if z > 0 {
+        must("verif_feed_zeroes", || {
+            g.verif_feed_zeroes(z);
+        })?;
+        st.class("zero_prefix_via_hook");
+    }
     let mut pos = 0usize;
     let mut forms = 0u32;
     let mut cuts: Vec<usize> = Vec::new();
@@ -196,13 +218,13 @@ pub fn eval(case: &Case, st: &mut Stats) -> Result<(), String> {
             Op::Finalize => {
                 if finals < 3 {
                     finals += 1;
-                    let (es, el) = one_shot_text(&data[..pos])?;
+                    let (es, el) = one_shot_text(case.zero_prefix, &data[..pos])?;
                     let a = must("finalize", || g.finalize())?.map_err(|e| format!("mid-stream finalize failed at {}: {:?}", pos, e))?;
                     ensure_eq!(a.to_string(), es, "mid-stream finalize() after {} of {} bytes vs one-shot hash of that prefix", pos, data.len());
                     let b = must("finalize_without_truncation", || g.finalize_without_truncation())?
                         .map_err(|e| format!("mid-stream finalize_without_truncation failed at {}: {:?}", pos, e))?;
                     ensure_eq!(b.to_string(), el, "mid-stream finalize_without_truncation() after {} of {} bytes", pos, data.len());
-                    ensure_eq!(g.input_size(), pos as u64, "input_size() mid-stream");
+                    ensure_eq!(g.input_size(), z + pos as u64, "input_size() mid-stream");
                     st.class("midstream_finalize");
                 }
             }
@@ -220,14 +242,17 @@ pub fn eval(case: &Case, st: &mut Stats) -> Result<(), String> {
         cuts.push(pos);
     }
     feed(&mut g, &data[pos..], 0, &mut forms)?;
-    ensure_eq!(g.input_size(), data.len() as u64, "input_size() after the history");
+    ensure_eq!(g.input_size(), z + data.len() as u64, "input_size() after the history");
     check_generator_output(&g, &r, "after the generated history")?;
     // clones taken on the way are untouched by what happened to their successors
     for (old, p) in &clones {
-        let (es, _) = one_shot_text(&data[..*p])?;
+        let (es, _) = one_shot_text(case.zero_prefix, &data[..*p])?;
         let a = must("finalize", || old.finalize())?.map_err(|e| format!("finalize of a clone source failed: {:?}", e))?;
         ensure_eq!(a.to_string(), es, "generator that was cloned at byte {} changed afterwards", p);
-        ensure_eq!(old.input_size(), *p as u64, "input_size() of the generator that was cloned");
+        ensure_eq!(old.input_size(), z + *p as u64, "input_size() of the generator that was cloned");
+    }
+    if z > 0 {
+        return finish(case, st, nforms_of(forms), &cuts, &bounds, &elim, &data, s.cnt_sel);
     }
     // the easy functions
     let exp_short = oracle::fmt::format_hash(r.log, &r.bh1, &r.bh2_trunc);
@@ -236,8 +261,16 @@ pub fn eval(case: &Case, st: &mut Stats) -> Result<(), String> {
     let mut rd = ChunkReader { data: &data, pos: 0, sizes: &case.reads, k: 0 };
     let hs = must("hash_stream", || ssdeep::hash_stream(&mut rd))?.map_err(|e| format!("hash_stream failed: {:?}", e))?;
     ensure_eq!(hs.to_string(), exp_short, "hash_stream() with read sizes {:?}", &case.reads[..case.reads.len().min(8)]);
+    finish(case, st, nforms_of(forms), &cuts, &bounds, &elim, &data, s.cnt_sel)
+}
+
+fn nforms_of(forms: u32) -> u32 {
+    forms.count_ones()
+}
+
+#[allow(clippy::too_many_arguments)]
+fn finish(case: &Case, st: &mut Stats, nforms: u32, cuts: &[usize], bounds: &[usize], elim: &[usize], data: &[u8], cnt_sel: u64) -> Result<(), String> {
     // classification
-    let nforms = forms.count_ones();
     st.class(&format!("forms_used={}", nforms));
     let in_window = cuts.iter().any(|&c| c > 0 && c < data.len() && bounds.iter().any(|&b| b + 1 > c && b + 1 - c <= 6));
     if in_window {
@@ -250,7 +283,10 @@ pub fn eval(case: &Case, st: &mut Stats) -> Result<(), String> {
     if !elim.is_empty() {
         st.class("eliminations>=1");
     }
-    if nforms >= 2 && in_window && s.cnt_sel >= 1 {
+    if elim.len() >= 8 {
+        st.class("eliminations>=8");
+    }
+    if nforms >= 2 && in_window && cnt_sel >= 1 {
         st.nontrivial(oracle::fingerprint(format!("{:?}{:?}", case.prog, case.ops).as_bytes()));
     }
     Ok(())
@@ -286,7 +322,13 @@ pub fn strategy(wt: u64, tier: Tier) -> impl Strategy<Value = Case> {
         proptest::collection::vec(op(max_n), 0..=max_ops),
         proptest::collection::vec(prop_oneof![3 => 1u16..=9, 1 => 1u16..=40000], 0..6),
     )
-        .prop_map(|(prog, ops, reads)| Case { prog, ops, reads })
+        .prop_map(|(prog, ops, reads)| Case { prog, ops, reads, zero_prefix: 0 })
+        .prop_flat_map(|c| {
+            (Just(c), prop_oneof![4 => Just(0u64), 1 => (20u32..=36, any::<u64>()).prop_map(|(b, r)| (1u64 << b) + r % (1u64 << b))]).prop_map(|(mut c, z)| {
+                c.zero_prefix = z;
+                c
+            })
+        })
 }
 
 pub fn subchecks(tier: Tier) -> Vec<SubCheck> {
